@@ -159,8 +159,26 @@ def main(argv=None):
             vac['contracts_with_obligations'] += 1
         else:
             vac['vacuous_contracts'].append(r['key'] + ' (no obligations)')
+        # every loop whose body can end normally must have an iteration that does so
+        by_loop = {}
+        for o in can:
+            lp = (o.get('info') or {}).get('loop')
+            if lp is not None:
+                by_loop.setdefault(lp, []).append(o)
+        for lp, os_ in by_loop.items():
+            if all(o['result'] == 'proved' for o in os_) and not any(
+                    o['result'] not in ('proved',) for o in real):
+                vac['vacuous_contracts'].append('%s (loop %s: no iteration reaches the end of the body)'
+                                                % (r['key'], lp))
+        can = [o for o in can if (o.get('info') or {}).get('loop') is None]
         if can and all(o['result'] == 'proved' for o in can):
-            vac['vacuous_contracts'].append(r['key'] + ' (every exit unreachable: canary proved)')
+            # a failed obligation that is assumed afterwards (loop initiation, call preconditions)
+            # makes everything behind it unreachable: that is the failure's consequence, reported
+            # with the failure, not a vacuous contract
+            if any(o['result'] not in ('proved',) for o in real):
+                vac.setdefault('unreachable_after_failure', []).append(r['key'])
+            else:
+                vac['vacuous_contracts'].append(r['key'] + ' (every exit unreachable: canary proved)')
         vac['canaries_not_proved'] += sum(1 for o in can if o['result'] != 'proved')
     if vac['vacuous_contracts']:
         errors.append({'key': 'vacuity', 'error': 'vacuous: ' + '; '.join(vac['vacuous_contracts'][:5])})
